@@ -38,7 +38,7 @@ static reproc_t *poll_process(void)
 
 /* ---- specification helpers: plain loops over the (bounded) sources ------------ */
 #define VERIF_MAXSRC (VERIF_NSRC > 3 ? VERIF_NSRC : 3)
-static reproc_event_source src[VERIF_MAXSRC];
+static reproc_event_source src[VERIF_NSRC];     /* exactly as many as are passed: reading one more is out of bounds */
 static reproc_event_source src0[VERIF_MAXSRC]; /* as passed in */
 static size_t nsrc;
 
@@ -146,6 +146,26 @@ void harness(void)
 #elif defined(POLL_reproc_poll)
   int timeout = nondet_int();
   __CPROVER_assume(timeout >= -1); /* milliseconds, or REPROC_INFINITE (reproc.h :374-375) */
+#if VERIF_NSRC == 1
+  /* misuse (C14): no sources at all - a null array with any count, or an empty
+     array (an object of zero bytes) - is rejected before anything is touched */
+  if (nondet_bool()) {
+    bool null_array = nondet_bool();
+    reproc_event_source *ms = null_array ? NULL : (malloc)(0);
+    __CPROVER_assume(null_array || ms != NULL);
+    size_t mn = null_array ? (size_t) nondet_ulong() : 0;
+    int mr = reproc_poll(ms, mn, timeout);
+    V_ASSERT("C14/poll.null_or_empty_sources_rejected_without_side_effect",
+             mr == -EINVAL && g.e.os_calls == g0.e.os_calls && g.fds.open == g0.fds.open && g.fds.lib == g0.fds.lib &&
+                 g.pl.poll_calls == g0.pl.poll_calls && g.e.faults == g0.e.faults);
+    V_CANARY("poll.misuse_reachable");
+    (free)(ms);
+    (free)(pa);
+    (free)(pb);
+    (free)(pc);
+    return;
+  }
+#endif
 #include "gen/pre_reproc_poll.inc"
   int verif_rv = reproc_poll(sources, num_sources, timeout);
 #include "gen/post_reproc_poll.inc"
